@@ -132,6 +132,11 @@ SPECS = [
                                              raises=("ValueError", "(existsb (cov_eqb {0}) {var})"), must_try=True),
                   "self._purge_sink": dict(var="self_sink", args=["Z", "Z"],
                                            update="(g_cache_purge_sink {var} {0} {1})")}),
+    # ---- mutable/memory.py: the static part of MemoryTimeline.fetch
+    dict(name="g_mem_fetch_static", file="calgebra/mutable/memory.py", cls="MemoryTimeline", func="_fetch_static",
+         kind="gen",
+         params=[("self_static_intervals", "LIST"), ("start", "OZ"), ("end", "OZ"), ("reverse", "B")],
+         selfattrs={"_static_intervals": ("self_static_intervals", "LIST")}),
 ]
 
 
